@@ -167,8 +167,28 @@ class C07(F.Spec):
                 cur[1].append(g)
         lives.append(cur)
         fs = []
+        infos = []
         for li, (ops, gs) in enumerate(lives):
+            self._info = None
             fs += self.check_life(ops, gs, li)
+            infos.append(self._info)
+        # across a power cycle: what a restoring relay comes back with is the state it was last switched to, provided
+        # the last relay write on the board was old enough for the save to have happened (it is delayed by SAVE_STATE_DELAY = 1 s)
+        for li in range(1, len(infos)):
+            prev, cur = infos[li - 1], infos[li]
+            if not prev or not cur or cur["boot"] is None:
+                continue
+            for k, ed in prev["edges"].items():
+                if not (prev["flags"].get(k, 0) & 0x06) or not ed:
+                    continue
+                tm, logical = ed[-1]
+                # every relay write (a command, a timer firing, on any channel) postpones the one delayed save
+                last_act = max([c[0] for c in prev["cmds"]] + [e[-1][0] // 1000 for e in prev["edges"].values() if e])
+                if last_act > prev["end"] - 1300 or k >= len(cur["boot"][0]):
+                    continue
+                if (1 if cur["boot"][0][k] else 0) != logical:
+                    fs.append(F.Finding("saved-state-not-last-state", "relay %d was last switched to %d, %d ms before the power cycle, but %d was saved for the restart"
+                                        % (k, logical, prev["end"] - tm // 1000, cur["boot"][0][k])))
         return fs
 
     def check_life(self, ops, raw, li):
@@ -250,6 +270,7 @@ class C07(F.Spec):
                         fs.append(F.Finding("published-time-wrong", "channel %d has no timer running but %d ms are published as remaining" % (ch, pv)))
         if end is None:
             end = now
+        self._info = {"edges": edges, "end": end, "flags": flags, "boot": boot, "cmds": cmds}
         # timed commands of this life
         for k, (t0, ch, v, d) in enumerate(cmds):
             if d == 0:
